@@ -17,6 +17,11 @@ use tracing::{error, info, warn};
 
 static CURRENT_STREAM_ID: AtomicU32 = AtomicU32::new(1);
 
+#[cfg(feature = "iggy_verif")]
+pub(crate) fn verif_reset_current_stream_id() {
+    CURRENT_STREAM_ID.store(1, Ordering::SeqCst);
+}
+
 impl System {
     pub(crate) async fn load_streams(
         &mut self,
